@@ -49,7 +49,10 @@ WayVerdict(kd, way) ==
       [] way = "forward" -> RVerdict(QCell(kd, "arg", <<>>, ForwardK(kd)))
 ArgVerdict(kd, amp) == ArgOK(ArgDecl(kd), amp, ParamShape(kd))
 
-\* a program is a sequence of parameters [kd, way, amp]
+\* a program is a sequence of parameters [kd, way, amp, sc]; sc is the STATEMENT CONTEXT in which the
+\* callee places what it does with the parameter (top level, block, loop block, then / else / else-if
+\* arms, after a label; always executed exactly once).  Verdicts and the machine ignore it: the rules
+\* are context independent.
 ProgAccepted(prog) == \A i \in 1..Len(prog) : ArgVerdict(prog[i].kd, prog[i].amp).ok /\ WayVerdict(prog[i].kd, prog[i].way).ok
 Codes(prog) == UNION {ArgVerdict(prog[i].kd, prog[i].amp).codes \cup WayVerdict(prog[i].kd, prog[i].way).codes : i \in 1..Len(prog)}
 
